@@ -205,6 +205,54 @@ void run_cvc(uint64_t seed, const sk_mask* mask, sk_result* out)
 			}
 		}
 	}
+	/* ---- the root certificate in the documented self-signed mode:
+	   btokCVCUnwrap(cvc, cert, len, cvc->pubkey, 0) verifies the signature under the key
+	   the certificate itself carries.  cvc is an output: what it held before must not matter
+	   (zeroed, filled with garbage, or holding the content of another certificate), an intact
+	   root verifies, a root with one altered octet does not. */
+	if (A[0].certlen)
+	{
+		static octet alt[sizeof(A[0].cert)];
+		unsigned pre, trial;
+		for (trial = 0; trial < 4; ++trial)
+		{
+			btok_cvc_t self;
+			int altered = trial > 0;
+			size_t pos = 0;
+			memcpy(alt, A[0].cert, A[0].certlen);
+			if (altered)
+			{
+				pos = sk_below(&r, (uint32_t)A[0].certlen);
+				alt[pos] ^= (octet)(1u << sk_below(&r, 8));
+			}
+			pre = sk_below(&r, 4);
+			switch (pre)
+			{
+			case 0: memset(&self, 0, sizeof(self)); break;
+			case 1: sk_bytes(&r, (octet*)&self, sizeof(self)); break;
+			case 2: self = A[depth ? 1 : 0].cvc; break;                 /* content of another certificate */
+			default: memset(&self, 0, sizeof(self)); self.pubkey_len = A[0].cvc.pubkey_len; break;
+			}
+			code = btokCVCUnwrap(&self, alt, A[0].certlen, self.pubkey, 0);
+			sk_text(out, "self-signed check of the root, %s, cvc before the call: %s -> rc=%u", altered ? "one octet altered" : "intact",
+				pre == 0 ? "zeroed" : pre == 1 ? "garbage" : pre == 2 ? "another certificate" : "zeroed, matching key length", (unsigned)code);
+			sk_dg_u64(&out->digest, code);
+			sk_count(altered ? "fault.cvc_root_octet_altered" : "probe.cvc_root_selfsigned_intact", 1);
+			if (!altered && code != ERR_OK)
+			{
+				sk_heap_disarm();
+				sk_violate(out, "cvc_selfsigned_root_rejected", "btokCVCUnwrap(cvc, root, len, cvc->pubkey, 0) returned %u for an intact self-signed root", (unsigned)code);
+				return;
+			}
+			if (altered && code == ERR_OK)
+			{
+				sk_heap_disarm();
+				sk_violate(out, "cvc_altered_root_accepted", "self-signed verification of the root accepted it with octet %lu altered (cvc %s before the call)",
+					(unsigned long)pos, pre == 0 ? "zeroed" : pre == 1 ? "garbage" : pre == 2 ? "held another certificate" : "zeroed with matching key length");
+				return;
+			}
+		}
+	}
 	/* ---- validations on the simulated calendar */
 	nval = 2 + sk_below(&r, 5);
 	for (v = 0; v < nval && chain_ok; ++v)
